@@ -333,6 +333,7 @@ class Executor(object):
         s.reached = {}
         s.on_path_end = None
         s.keep_states = True
+        s.max_wall = 0
         s.tape = None
         s.concolic_tape = None
         s.alloc_policy = None
@@ -378,10 +379,14 @@ class Executor(object):
             if cf is not None:
                 th.frames.append(Frame(cf, True))
         work = [st]
+        t_start = time.time()
         while work:
             st = work.pop()
             if len(s.results) >= s.max_paths:
                 raise Inconclusive('path limit %d reached' % s.max_paths)
+            if s.max_wall and time.time() - t_start > s.max_wall:
+                raise Inconclusive('wall-clock budget of %ds exhausted after %d paths (%d states pending)' % (
+                    s.max_wall, len(s.results), len(work) + 1))
             try:
                 s.run_state(st, work)
             except PathEnd as pe:
